@@ -52,6 +52,11 @@ extern "C" void c18_csv()
 #include <modules/utf8/plugin_utf8.h>
 // the utf8 module's methods through the real plugin entry point (UTF8Plugin::executeMethod) on a 2-character string;
 // method ids VX_M_AT / VX_M_REMOVE / VX_M_SUBSTR2 are read from the enum in the current plugin_utf8.cpp by the driver
+#ifndef VX_M_AT            /* only the utf8 instance passes the ids; other instances never call this entry */
+#define VX_M_AT 0
+#define VX_M_REMOVE 0
+#define VX_M_SUBSTR2 0
+#endif
 extern "C" void c18_utf8()
 {
   static Context ctx(1, 2);
